@@ -206,11 +206,47 @@ pub fn save_cache(cache_path: &Path, cache: &Cache) -> std::io::Result<()> {
 pub(crate) fn resolve_scan_paths(paths: &[PathBuf], include: &[String]) -> Vec<PathBuf> {
     // CLI --include overrides paths
     if !include.is_empty() {
-        return include.iter().map(PathBuf::from).collect();
+        let included: Vec<PathBuf> = include.iter().map(PathBuf::from).collect();
+        return drop_covered_roots(&included);
     }
 
     // Use provided paths (or default ".")
-    paths.to_vec()
+    drop_covered_roots(paths)
+}
+
+/// Keep only the outermost of the requested scan roots, and the first of several spellings
+/// of the same root: a root that equals or lies below another requested root is visited by
+/// that root's walk already, and walking it again would report its files and directories a
+/// second time (or replace a directory's counts by those of a partial walk).
+///
+/// Roots are compared component by component after normalisation, so `src` covers `./src/a`
+/// but not `src-tauri`. Roots with `..` components are left alone.
+fn drop_covered_roots(roots: &[PathBuf]) -> Vec<PathBuf> {
+    use std::path::Component;
+
+    let keys: Vec<PathBuf> = roots
+        .iter()
+        .map(|root| crate::output::path::normalize_for_matching(root))
+        .collect();
+    let comparable = |key: &Path| !key.components().any(|c| matches!(c, Component::ParentDir));
+    // The empty key is the current directory: it covers relative keys only
+    let covers = |outer: &Path, inner: &Path| {
+        comparable(outer)
+            && comparable(inner)
+            && inner.starts_with(outer)
+            && (!outer.as_os_str().is_empty() || inner.is_relative())
+    };
+    let is_covered = |i: usize| {
+        keys.iter()
+            .enumerate()
+            .any(|(j, outer)| j != i && covers(outer, &keys[i]) && (keys[i] != *outer || j < i))
+    };
+    roots
+        .iter()
+        .enumerate()
+        .filter(|(i, _)| !is_covered(*i))
+        .map(|(_, root)| root.clone())
+        .collect()
 }
 
 /// Write output to a file or stdout.
